@@ -233,12 +233,71 @@ const VARIANTS: &[&str] = &[
     "required-missing", "other-alg",
 ];
 
+/// the key-binding policy is a `Validation` too: every setting of it must be enforced on the
+/// key-binding JWT, whatever the token itself says (e.g. an `alg` member in the `cnf` key)
+fn kb_policy_case(ctx: &mut Ctx, policy_alg: &str, sign_alg: &str, cnf_alg: Option<&str>, policy_aud: Option<&str>, token_aud: Option<&str>) {
+    ctx.report.evaluations += 1;
+    let case = json!({"kind":"kb-policy","policy_alg":policy_alg,"sign_alg":sign_alg,"cnf_alg":cnf_alg,"policy_aud":policy_aud,"token_aud":token_aud});
+    real::set_current(&case);
+    let mut jwk = keys::holder_jwk();
+    match cnf_alg { Some(a) => { jwk["alg"] = json!(a); } None => { jwk.as_object_mut().unwrap().remove("alg"); } }
+    let base = json!({"_sd_alg": "sha-256", "cnf": jwk, "a": 1});
+    let mut h = Header::new(Algorithm::HS256);
+    h.typ = Some("sd-jwt".into());
+    let jwt = match real::sign(&h, &base, &keys::enc_key(0, 0)) { Out::Ok(j) => j, _ => return };
+    let prefix = format!("{}~", jwt);
+    let sd_hash = {
+        use sha2::{Digest, Sha256};
+        real::b64url_encode(&Sha256::digest(prefix.as_bytes()))
+    };
+    let mut claims = json!({"nonce": "n", "iat": now(), "sd_hash": sd_hash});
+    if let Some(a) = token_aud { claims["aud"] = json!(a); }
+    let mut kh = Header::new(alg_of(sign_alg));
+    kh.typ = Some("kb+jwt".into());
+    let kb = match real::sign(&kh, &claims, &keys::enc_key(1, 1)) { Out::Ok(k) => k, _ => return };
+    let mut policy = Validation::new(alg_of(policy_alg)).without_expiry();
+    if let Some(a) = policy_aud { policy = policy.with_audience(a); }
+    let expect = policy_alg == sign_alg && (policy_aud.is_none() || policy_aud == token_aud);
+    ctx.report.bump(&format!("kb-policy:{}", if expect { "must-accept" } else { "must-reject" }));
+    ctx.report.nontrivial_case(&case);
+    let issuer_policy = Validation::default().without_expiry().with_algorithm(Algorithm::HS256);
+    let outs: Vec<(&str, Out<()>)> = vec![
+        ("verify_kb", real::guard(|| sdjwt::verify_kb(&kb, &jwk, &policy).map(|_| ()))),
+        ("Verifier::verify+kb", real::verifier_verify(&format!("{}{}", prefix, kb), &keys::dec_key(0, 0), &issuer_policy, Some(&policy)).map(|_| ())),
+    ];
+    for (entry, out) in outs {
+        match (&out, expect) {
+            (Out::Ok(_), false) => ctx.report.diff("property", entry, &format!("{}:kb-policy-not-enforced", entry), &case, json!({})),
+            (Out::Err(c, msg), true) => ctx.report.diff("property", entry, &format!("{}:kb-policy-rejects-conforming", entry), &case, json!({"err": c, "msg": msg})),
+            (Out::Panic(site), _) => ctx.report.diff("property", entry, &format!("{}:panic:{}", entry, site.split(' ').next().unwrap_or("")), &case, json!({"panic": site})),
+            _ => {}
+        }
+    }
+}
+
+fn kb_policies(ctx: &mut Ctx) {
+    let algs = ["RS256", "RS384", "RS512", "PS256"];
+    for pa in algs {
+        for sa in algs {
+            for ca in [None, Some("RS256"), Some("RS512"), Some("PS256"), Some("HS256"), Some("none")] {
+                kb_policy_case(ctx, pa, sa, ca, None, Some("aud-a"));
+                kb_policy_case(ctx, pa, sa, ca, Some("aud-a"), Some("aud-a"));
+                kb_policy_case(ctx, pa, sa, ca, Some("aud-a"), Some("aud-b"));
+                kb_policy_case(ctx, pa, sa, ca, Some("aud-a"), None);
+            }
+        }
+    }
+}
+
 pub fn run(ctx: &mut Ctx, replay: Option<&Value>) {
-    ctx.report.rule = "all sequences of builder calls of length <= 3 (quick) / 4 (thorough) over a 17-step alphabet (without_expiry, with_audience x2, with_issuer x2, with_subject x2, with_leeway x2, with_algorithm x2, with_required_claim x6: iss, x, exp, nbf, aud, sub) from default() and new(PS384): frame condition after every step, final record compared field by field with the model; random longer sequences against a reordering that keeps the relative order per setting; for every policy reachable in <= 2 steps (and random longer ones) x validate_nbf in {false,true}: a token satisfying every constraint and tokens violating exactly one (19 variants, margins >= 5 s around now +- leeway) through decode / Holder::verify / Verifier::verify, compared with the model's decision; non-trivial = distinct sequence of >= 2 steps, or distinct (policy, variant)".to_string();
+    ctx.report.rule = "all sequences of builder calls of length <= 3 (quick) / 4 (thorough) over a 17-step alphabet (without_expiry, with_audience x2, with_issuer x2, with_subject x2, with_leeway x2, with_algorithm x2, with_required_claim x6: iss, x, exp, nbf, aud, sub) from default() and new(PS384): frame condition after every step, final record compared field by field with the model; random longer sequences against a reordering that keeps the relative order per setting; for every policy reachable in <= 2 steps (and random longer ones) x validate_nbf in {false,true}: a token satisfying every constraint and tokens violating exactly one (19 variants, margins >= 5 s around now +- leeway) through decode / Holder::verify / Verifier::verify, compared with the model's decision; the key-binding policy (algorithm x audience) against key-binding JWTs signed with each RSA algorithm under cnf keys with each `alg` member, through verify_kb and Verifier::verify; non-trivial = distinct sequence of >= 2 steps, or distinct (policy, variant)".to_string();
     if let Some(case) = replay {
         let steps: Vec<Value> = case["steps"].as_array().cloned().unwrap_or_default();
         let start = case["start"].as_str().unwrap_or("default");
-        if case["kind"] == json!("enforce") {
+        if case["kind"] == json!("kb-policy") {
+            kb_policy_case(ctx, case["policy_alg"].as_str().unwrap_or("RS256"), case["sign_alg"].as_str().unwrap_or("RS256"), case["cnf_alg"].as_str(),
+                case["policy_aud"].as_str(), case["token_aud"].as_str());
+        } else if case["kind"] == json!("enforce") {
             enforcement_case(ctx, start, &steps, case["validate_nbf"].as_bool().unwrap_or(false), case["variant"].as_str().unwrap_or("all-satisfied"));
         } else {
             builder_sequence(ctx, start, &steps);
@@ -256,6 +315,7 @@ pub fn run(ctx: &mut Ctx, replay: Option<&Value>) {
     enumerate_sequences(ctx, max_len);
     let mut rng = Rng::fork(ctx.seed, 0xC11);
     order_independence(ctx, &mut rng, if ctx.tier_thorough { 20_000 } else { 1_500 });
+    kb_policies(ctx);
     // enforcement
     let alpha = step_alphabet();
     let mut policies: Vec<Vec<Value>> = vec![vec![]];
